@@ -84,6 +84,7 @@ def real_parse(uni, clazz, data: bytes, handler: str, config=None, files=None, x
                     with open(os.path.join(d, "main.xml"), "wb") as f:
                         f.write(data)
                     for name, content in (files or {}).items():
+                        os.makedirs(os.path.dirname(os.path.join(d, name)), exist_ok=True)
                         with open(os.path.join(d, name), "wb") as f:
                             f.write(content)
                     obj = p.from_path(pathlib.Path(d) / "main.xml", uni.classes[clazz])
@@ -130,7 +131,21 @@ def any_attr_colon(t):
     return any(":" in v for _, v in t["a"]) or any(any_attr_colon(c) for c in t["c"])
 
 
-SAFE_KINDS = [k for k in R.ALL_KINDS if k not in ("bigpad", "pi_text", "comment_text", "xinclude", "unused_decl")]
+SAFE_KINDS = [k for k in R.ALL_KINDS if k not in ("bigpad", "pi_text", "comment_text", "xinclude", "xinclude_subdir", "unused_decl")]
+XML_BASE = "{http://www.w3.org/XML/1998/namespace}base"
+
+
+def with_xml_base(t, add):
+    """the respelled infoset as each handler's XInclude leaves it: libxml2 adds `xml:base` to a root element
+    included from another directory (base URI fixup), ElementInclude does not"""
+    out = {k: v for k, v in t.items() if k not in ("c", "_xml_base")}
+    out["a"] = list(t["a"]) + ([[XML_BASE, t["_xml_base"]]] if add and t.get("_xml_base") else [])
+    out["c"] = [with_xml_base(c, add) for c in t["c"]]
+    return out
+
+
+def has_xml_base(t):
+    return bool(t.get("_xml_base")) or any(has_xml_base(c) for c in t["c"])
 
 
 def pick_kinds(rng, tree, ann):
@@ -138,6 +153,8 @@ def pick_kinds(rng, tree, ann):
     r = rng.random()
     if r < 0.12:
         kinds.append("xinclude")
+        if rng.random() < 0.4:
+            kinds.append("xinclude_subdir")
     elif r < 0.2:
         kinds.append("pi_text")
     elif r < 0.3:
@@ -215,12 +232,16 @@ def gen_respelled(rng, tier):
                 # against an independent (expat) reading of the bytes
                 raise RuntimeError("c09_rewrite: respelled document does not have the reported infoset: %r" % data[:400])
             cuts = [] if info["xinclude"] else pick_cuts(rng, data)
-            yield {
-                "ctx": ctx, "tree": new_tree, "clazz": "Root", "config": rng.choice(CONFIGS), "desc": desc, "_uni": u.modname,
-                "_kind": kind, "_kinds": info["kinds"] + (["chunks"] if cuts else []), "_doc": b64(data),
-                "_files": {k: b64(v) for k, v in files.items()},
-                "_handlers": hs, "_orig": b64(orig), "_xinclude": info["xinclude"], "_encoding": info["encoding"], "_cuts": cuts,
-            }
+            config = rng.choice(CONFIGS)
+            # the two handlers leave different trees behind when a part comes from another directory (xml:base)
+            groups = [[h] for h in hs] if has_xml_base(new_tree) else [hs]
+            for group in groups:
+                yield {
+                    "ctx": ctx, "tree": with_xml_base(new_tree, group == ["lxml"]), "clazz": "Root", "config": config, "desc": desc,
+                    "_uni": u.modname, "_kind": kind, "_kinds": info["kinds"] + (["chunks"] if cuts else []), "_doc": b64(data),
+                    "_files": {k: b64(v) for k, v in files.items()},
+                    "_handlers": group, "_orig": b64(orig), "_xinclude": info["xinclude"], "_encoding": info["encoding"], "_cuts": cuts,
+                }
 
 
 CTRL_PADS = ["\x1c", "\x1f", "\x1d ", " \x1e", "\x1c\x1f"]
@@ -701,6 +722,21 @@ def oracle_covered(a, msg):
         found.append("c09-any-attr-prefix")
 
     def explain(k):
+        if k == "new/lxml" and a["xinclude"] and any("/" in name for name in a["files"]):
+            # libxml2 adds xml:base to a root included from another directory: fine once the parts lie next to the main file
+            flat = dict(a)
+            flat["files"] = {name.split("/")[-1]: v for name, v in a["files"].items()}
+            enc = a.get("encoding", "utf-8")
+            enc = "utf-16" if enc.startswith("utf-16") else enc
+            text = unb64(a["doc"]).decode(enc).replace('href="sub/', 'href="').replace("href='sub/", "href='")
+            data = unb64(a["doc"])
+            if enc == "utf-16":
+                new = (b"\xfe\xff" + text.encode("utf-16-be")) if data[:2] == b"\xfe\xff" else (b"\xff\xfe" + text.encode("utf-16-le"))
+            else:
+                new = text.encode(enc)
+            flat["doc"] = b64(new)
+            if m(four_results(flat)[k]) == m(ref):
+                return "c09-lxml-xinclude-xml-base"
         if k == "new/native" and a["xinclude"]:
             # with process_xinclude the native handler walks an ElementTree and invents the prefixes:
             # every document whose content uses prefixes (QName values, xsi:type, name-like wildcard
@@ -771,7 +807,22 @@ def finding_native_xinclude():
     return a != b, f"process_xinclude off: {json.dumps(a)}; on (same file, no include in it): {json.dumps(b)}"
 
 
+def finding_lxml_xml_base():
+    desc = _mini([{"name": "mid", "type": {"opt": {"cls": "Mid"}}, "metadata": {"type": "Element"}, "default": {"value": None}}],
+                 [{"name": "Mid", "fields": [{"name": "v", "type": {"opt": "str"}, "metadata": {"type": "Element"}, "default": {"value": None}}]}])
+    main = b'<Root xmlns:xi="http://www.w3.org/2001/XInclude"><xi:include href="sub/mid.xml"/></Root>'
+    u = B.Universe(desc)
+    try:
+        cfg = {"fail_on_unknown_attributes": True}
+        merged = real_parse(u, "Root", b"<Root><mid><v>x</v></mid></Root>", "lxml", cfg)
+        split = {h: real_parse(u, "Root", main, h, cfg, {"sub/mid.xml": b"<mid><v>x</v></mid>"}, True) for h in ("native", "lxml")}
+    finally:
+        u.close()
+    return split["lxml"] != merged and split["native"] == merged, f"merged {json.dumps(merged)}; split: {json.dumps(split)}"
+
+
 FINDINGS = {
+    "c09-lxml-xinclude-xml-base": finding_lxml_xml_base,
     "c09-any-attr-prefix": finding_any_attr_prefix,
     "c09-native-xinclude-prefixes": finding_native_xinclude,
 }
